@@ -196,6 +196,14 @@ def plan(tier, seed):
                         P.append({'fam': fam, 'changes': ch})
                     for ch in STRUCT:
                         P.append({'fam': fam, 'changes': ch})
+                    if pair[1] == 7:
+                        # demand computed from an hourly temperature series (heating degree days) instead of read from a demand file; the shipped
+                        # hourly series serves as the temperature column (7..82: some days below 18.3 degC, most above)
+                        for div in ('1', '5', '9'):
+                            P.append({'fam': fam, 'changes': {'District Heating Demand Option': '2', 'Temperature File Name': F.demand_csv(),
+                                                              'Temperature Data Column Number': '2', 'Number of Housing Units': '12000',
+                                                              'Constant Anchor Demand': '3' if div != '5' else '0', 'US Census Division': div}})
+                        P.append({'fam': fam, 'changes': {'District Heating Demand Data Time Resolution': '2', 'District Heating Demand File Name': F.daily_demand_csv()}})
                     if tier == 'thorough' and tuple(s) == (5, 3, 2) and r in (3, 4):
                         inter = {kk: al[kk] for kk in ('Utilization Factor', 'End-Use Efficiency Factor',
                                                        'Injection Temperature', 'Ambient Temperature') if kk in al}
